@@ -18,11 +18,12 @@
 (* Alerts are the integers 1..NAlerts in the order they are handed to      *)
 (* Manager.Send, so "same order" = increasing.                             *)
 (*                                                                         *)
-(* sendLoop.stop() closes `stopped` and drains from the caller's goroutine *)
-(* without waiting for the loop goroutine: the loop may still hold a batch *)
-(* (known finding KF-C46-1, DESIGN H5).  JoinFix = TRUE models the         *)
-(* proposed repair (stop waits for the loop goroutine to exit before it    *)
-(* drains); with it the properties hold without the KF disjunct.           *)
+(* sendLoop.stop() closes `stopped` and, when draining, waits for the loop *)
+(* goroutine to return (loopWG) before it drains from the caller's         *)
+(* goroutine.  JoinFix = FALSE is the code before commit ce5b29f1f9        *)
+(* (KF-C46-1, DESIGN H5): no wait, the loop may still hold a batch while   *)
+(* the drain runs or while stop() returns; then the order and              *)
+(* drain-complete properties only hold with the `racy` disjunct.           *)
 (***************************************************************************)
 EXTENDS Integers, Sequences, FiniteSets, TLC, Json
 
@@ -36,7 +37,7 @@ CONSTANTS AMs,         \* Alertmanager names, a subset of {"am1","am2","am3"}
           Drain,       \* Options.DrainOnShutdown
           MaxFail,     \* bound on failed HTTP exchanges
           MaxSync,     \* bound on Alertmanager set changes
-          JoinFix,     \* model the proposed fix of KF-C46-1
+          JoinFix,     \* TRUE = current code (stop waits for the loop before draining); FALSE = before ce5b29f1f9
           Eager,       \* only schedules a gated harness can reproduce
           Hist,        \* record the history variable (FALSE for liveness checking)
           EmitMode     \* "stopend" | "none"
@@ -188,12 +189,12 @@ StopClose(am) ==           \* cleanSendLoops iterates in slice order; stop(): cl
   /\ \A o \in pend : Idx(am) <= Idx(o)
   /\ stopped' = [stopped EXCEPT ![am] = TRUE]
   /\ racy' = [racy EXCEPT ![am] = lpc[am] \in {"take", "send"} \/ (lpc[am] = "inner" /\ tok[am] = 1)]
-  /\ spc' = [spc EXCEPT ![am] = IF JoinFix THEN "join" ELSE IF Drain THEN "drain" ELSE "count"]
+  /\ spc' = [spc EXCEPT ![am] = IF ~Drain THEN "count" ELSE IF JoinFix THEN "join" ELSE "drain"]
   /\ UNCHANGED <<q, tok, lpc, lb, sb, recv, acc, cnt>>
 
-StopJoin(am) ==            \* proposed fix only: wait for the loop goroutine
+StopJoin(am) ==            \* s.loopWG.Wait(): the loop goroutine has returned (or was never started)
   /\ spc[am] = "join" /\ lpc[am] \in {"exit", "none"}
-  /\ spc' = [spc EXCEPT ![am] = IF Drain THEN "drain" ELSE "count"]
+  /\ spc' = [spc EXCEPT ![am] = "drain"]
   /\ UNCHANGED <<q, tok, stopped, lpc, lb, sb, recv, acc, cnt, racy>>
 
 StopCount(am) ==           \* no drain: dropped += queueLen()
